@@ -19,9 +19,7 @@ pub proof fn lemma_min_duration_small(net: &Network, a: NodeIdx, b: NodeIdx)
 {
     assert(net.nodes@.contains_key(a) && net.nodes@.contains_key(b));
     let l1 = net.sp_node(a).sp_end_location(); let l2 = net.sp_node(b).sp_start_location();
-    if l1 is Station && l2 is Station {
-        assert(net.locations.stations@.contains_key(l1->Station_0) && net.locations.stations@.contains_key(l2->Station_0));
-    }
+    lemma_locations_wf2(&net.locations, l1, l2);
 }
 pub proof fn lemma_dt_add_monotone(t: DateTime, d: Duration)
     requires dt_ok(t), dt_small(t), d is Length ==> d->Length_0.seconds < 0x4000_0000_0000_0000,
